@@ -324,6 +324,10 @@ func strGmatchIter(L *LState) int {
 func strGmatch(L *LState) int {
 	str := L.CheckString(1)
 	pattern := L.CheckString(2)
+	if strings.HasPrefix(pattern, "^") {
+		// a '^' at the start of a gmatch pattern is not an anchor, it is matched as an ordinary character
+		pattern = "%" + pattern
+	}
 	mds, err := pm.Find(pattern, []byte(str), 0, -1)
 	if err != nil {
 		L.RaiseError(err.Error())
